@@ -6,7 +6,7 @@ RULE = ("seeded random histories on a fresh NNS deployment: 2 TLDs (one may expi
         "(years 0..11, default overload), updateSOA, setAdmin, add/set/deleteRecords over A/AAAA/CNAME/TXT incl. bursts past 16 records, CNAME "
         "chains of 0..4 links incl. cycles and trailing dots, sub-name records before registrations (F15), the conflict rule at every depth (records 1..4 labels below a not-yet-registered name plus sibling / exact / one-below neighbours, then isAvailable and register of the name, deletion, registration), setRecord with another record's "
         "value (F16), setPrice incl. 0; signer per op drawn from {owner, admin, former owner, former admin, parent owner, stranger, committee, "
-        "nobody, owner+other}, committees of 1, 4 and 6 members (3 and 5 in the thorough tier) with the signer classes single member / half / majority-1 / majority / majority+1 for every committee-gated method, setAdmin by the current admin with and without the new admin over ownership histories, values shared between record types with setRecord at another index, a role matrix (one method called by every role in turn) and the directed history setAdmin(A); transfer to B; A / former owner mutate; block time advanced by ms steps, jumps, and to exp-1/exp/exp+1 of registered names and to the instant where a "
+        "nobody, owner+other}, committees of 1, 4 and 6 members (3 and 5 in the thorough tier) with the signer classes single member / half / majority-1 / majority / majority+1 for every committee-gated method, setAdmin by the current admin with and without the new admin over ownership histories, values shared between record types with setRecord at another index, full lists of 16 records probed with setRecord at ids 0/14/15/16/255, four-level names whose enclosing names have different owners, a role matrix (one method called by every role in turn) and the directed history setAdmin(A); transfer to B; A / former owner mutate; block time advanced by ms steps, jumps, and to exp-1/exp/exp+1 of registered names and to the instant where a "
         "renewal meets the ten-year limit; after every invocation the read API (ownerOf, properties, isAvailable, getRecords, getAllRecords, "
         "resolve, balanceOf, tokensOf, totalSupply, roots, tokens) is queried for the touched names at the block time and at expiration "
         "boundaries; every 4th case is the malformed stream (bad names, hashes, type/id outside the byte range, huge integers) and is "
